@@ -125,7 +125,14 @@ theorem condModelH_loop_tie : Gen.BddCore.condModelH_loop = Bdd.condModel := by
 theorem condModelH_tie : Gen.BddCore.condModelH = Bdd.condModel := by
   first
   | rfl
-  | (funext lvl p m; simp only [Gen.BddCore.condModelH, condModelH_loop_tie])
+  | (funext lvl p m; simp only [Gen.BddCore.condModelH, condModelH_loop_tie]; done)
+  | (funext lvl p m
+     induction m generalizing p with
+     | nil => first | rfl | simp [Gen.BddCore.condModelH, Bdd.condModel, condModelH_loop_tie]
+     | cons xb rest ih =>
+       obtain ⟨x, b⟩ := xb
+       simp only [Gen.BddCore.condModelH, condModelH_loop_tie, condition_tie, List.foldl, Bdd.condModel] at ih ⊢
+       first | done | rfl | exact ih _ | (simp_all; done) | grind)
 
 /-! ## the derived operations -/
 
